@@ -52,6 +52,7 @@ type Run struct {
 	Sched   []int             `json:"sched"`
 	Expect  []Expect          `json:"expect"`
 	Crash   []Crash           `json:"crash"`
+	Fault   []Crash           `json:"fault"` // the handle's k-th gate fails with an injected I/O error (if it is a call that can fail that way)
 	Tail    string            `json:"tail"` // "rr" (round robin), "seq", "random", "pct"
 	Seed    int64             `json:"seed"`
 	PCTd    int               `json:"pctd"`
@@ -236,7 +237,8 @@ func (r *runner) tableWriterRange(lo, hi uint64, part [][2]string, mark int) fun
 // doCall performs one API call on handle h and logs call / ret / view events.
 func (r *runner) doCall(h int, c Call) {
 	hst := r.hs[h]
-	sched.LogCur(sched.Event{"ev": "call", "h": h, "op": c.Op, "txn": c.Txn, "marks": r.marksOf(c), "recs": r.recsOf(c)})
+	sched.LogCur(sched.Event{"ev": "call", "h": h, "op": c.Op, "txn": c.Txn, "marks": r.marksOf(c), "recs": r.recsOf(c),
+		"first": c.First, "last": c.Last, "nparts": len(c.Parts), "auto": hst.auto, "expiry": c.Expiry != nil})
 	res, msg := "ok", ""
 	func() {
 		defer func() {
@@ -470,6 +472,13 @@ func (r *runner) exec() (out Out) {
 	for _, cr := range run.Crash {
 		crashAt[cr.H] = cr.Before
 	}
+	faultAt := map[int]map[int]bool{}
+	for _, f := range run.Fault {
+		if faultAt[f.H] == nil {
+			faultAt[f.H] = map[int]bool{}
+		}
+		faultAt[f.H][f.Before] = true
+	}
 	step := func(h int, exp *Expect) {
 		if c.Finished(h) || c.Crashed(h) {
 			return
@@ -487,6 +496,12 @@ func (r *runner) exec() (out Out) {
 				return
 			}
 			p = c.Pending(h)
+		}
+		if faultAt[h][gates[h]] {
+			switch p.Op {
+			case "createexcl", "create", "createtrunc", "opentrunc", "openwrite", "open", "tempfile", "rename", "readfile", "readdir", "write":
+				c.InjectNext(h)
+			}
 		}
 		nBefore := len(c.Events())
 		c.Step(h)
